@@ -7,11 +7,14 @@ import (
 	"fmt"
 	"os"
 	"os/exec"
+	"path/filepath"
 	"sort"
 	"strings"
 	"sync"
 
+	seccomp "github.com/elastic/go-seccomp-bpf"
 	"github.com/elastic/go-seccomp-bpf/arch"
+	"github.com/elastic/go-seccomp-bpf/cmd/seccomp-profiler/disasm"
 
 	"verif/harness/vlib"
 )
@@ -80,8 +83,99 @@ func mixedCase(s string) string {
 	return string(b)
 }
 
+// c12TableDigest: digest of every lookup result of the five tables in this process.
+func c12TableDigest() string {
+	h := sha256.New()
+	for _, t := range c12Tables {
+		if !t.hasTbl {
+			continue
+		}
+		names := make([]string, 0, len(t.info.SyscallNames))
+		for n := range t.info.SyscallNames {
+			names = append(names, n)
+		}
+		sort.Strings(names)
+		for _, n := range names {
+			fmt.Fprintf(h, "%s name %s -> %d\n", t.name, n, t.info.SyscallNames[n])
+		}
+		nums := make([]int, 0, len(t.info.SyscallNumbers))
+		for n := range t.info.SyscallNumbers {
+			nums = append(nums, n)
+		}
+		sort.Ints(nums)
+		for _, n := range nums {
+			fmt.Fprintf(h, "%s nr %d -> %s\n", t.name, n, t.info.SyscallNumbers[n])
+		}
+		fmt.Fprintf(h, "%s id %#x mask %#x\n", t.name, uint32(t.info.ID), t.info.SeccompMask)
+	}
+	return hex.EncodeToString(h.Sum(nil)[:12])
+}
+
+// c12ExerciseOtherAPIs uses the package's other public entry points in this process (compilation, dumps, text
+// conversions, syscall extraction from listings with known and unknown numbers, lookups of every alias): the tables
+// are shared, package-level data and must come out of it unchanged.
+func c12ExerciseOtherAPIs(run *vlib.Run) {
+	_, ts := mustTargets(run)
+	for i := 0; i < 40; i++ {
+		r := caseRand(run, 9000+i)
+		t := ts[i%len(ts)]
+		p := vlib.GenMixed(r, t, vlib.DefaultMixed())
+		c := vlib.Compile(p, t)
+		if c.OK() {
+			var sink strings.Builder
+			p.Dump(&sink)
+		}
+	}
+	dir := filepath.Join(vlib.BinDir(), "c12-listings")
+	os.MkdirAll(dir, 0o755)
+	defer os.RemoveAll(dir)
+	for i, a := range []*arch.Info{arch.X86_64, arch.I386, arch.X32, arch.ARM, arch.X86_64} {
+		trapLine := "SYSCALL"
+		if a == arch.I386 {
+			trapLine = "INT $0x80"
+		}
+		var b strings.Builder
+		b.WriteString("TEXT main.f(SB) /src/f.go\n")
+		for _, nr := range []int{1, 3, 999, 100999, 0x7fffffff, 60, 600, 1, 999} {
+			fmt.Fprintf(&b, "  f.go:1\t0x1\tb8\tMOVL $%d, AX\n  f.go:2\t0x2\t0f05\t%s\n", nr, trapLine)
+			fmt.Fprintf(&b, "  f.go:3\t0x3\tb8\tMOVQ $%d, 0(SP)\n  f.go:4\t0x4\te8\tCALL syscall.Syscall(SB)\n", nr)
+		}
+		path := filepath.Join(dir, fmt.Sprintf("l%d.txt", i))
+		os.WriteFile(path, []byte(b.String()), 0o644)
+		devnull, _ := os.OpenFile("/dev/null", os.O_WRONLY, 0)
+		saved := os.Stderr
+		if devnull != nil {
+			os.Stderr = devnull
+		}
+		disasm.ExtractSyscalls(a, path)
+		os.Stderr = saved
+		if devnull != nil {
+			devnull.Close()
+		}
+		run.Count("extractions_before_re_audit", 1)
+	}
+	for alias := range c12Aliases {
+		arch.GetInfo(alias)
+		arch.GetInfo(strings.ToUpper(alias))
+	}
+	var a seccomp.Action
+	a.Unpack("allow")
+	_ = seccomp.FilterFlag(3).String()
+}
+
 func c12() {
 	run := vlib.NewRun("C12", "exploration")
+	c12Audit(run, "fresh process")
+	before := c12TableDigest()
+	c12ExerciseOtherAPIs(run)
+	if after := c12TableDigest(); after != before {
+		run.Violation("tables-changed-by-other-api-calls", fmt.Sprintf("the lookup tables differ after compilations, dumps, syscall extractions and alias lookups ran in the same process (digest %s -> %s)", before, after), map[string]any{"check": "C12"})
+	}
+	c12Audit(run, "after other API calls in the same process")
+	c12Finish(run)
+}
+
+func c12Audit(run *vlib.Run, phase string) {
 	o, err := vlib.LoadOracles()
 	if err != nil {
 		run.Inconclusive("cannot load oracles: " + err.Error())
@@ -230,6 +324,24 @@ func c12() {
 		run.Violation("alias:default", fmt.Sprintf("GetInfo(\"\") on an amd64 host: %v, %v", info, err), map[string]any{"check": "C12"})
 	}
 
+	run.Count("audits:"+phase, 1)
+	_, _ = evals, distinct
+}
+
+func c12Finish(run *vlib.Run) {
+	o, err := vlib.LoadOracles()
+	if err != nil {
+		run.Inconclusive("cannot load oracles: " + err.Error())
+		run.Finish(0, 0, "")
+	}
+	_ = o
+	evals := run.Counter("pairs_checked") + run.Counter("oracle_comparisons") + run.Counter("alias_lookups") + run.Counter("audit_arch_names_checked")
+	distinct := map[string]bool{}
+	for _, t := range c12Tables {
+		for _, name := range t.info.SyscallNumbers {
+			distinct[t.name+"/"+name] = true
+		}
+	}
 	// determinism across processes: the inversion is redone at every start
 	nproc := run.N(24, 200)
 	sums := map[string]int{}
@@ -269,5 +381,5 @@ func c12() {
 		run.Require("dump_processes", int64(nproc))
 	}
 	run.Finish(evals, int64(len(distinct)),
-		"exhaustive over the five tables: every (number, name) row checked for inversion both ways, uniqueness of the name, and equality with every oracle source listing the name; 16 architecture ids and 29 AUDIT_ARCH names against linux/audit.h; 22 alias keys x 3 letter cases + unknown names; N fresh processes dumping all lookups must agree byte for byte; distinct = (table, name) pairs")
+		"exhaustive over the five tables: every (number, name) row checked for inversion both ways, uniqueness of the name, and equality with every oracle source listing the name; 16 architecture ids and 29 AUDIT_ARCH names against linux/audit.h; 22 alias keys x 3 letter cases + unknown names; N fresh processes dumping all lookups must agree byte for byte; the whole audit is repeated after compilations, dumps, syscall extractions (known and unknown numbers, five architectures) and alias lookups ran in the same process, and the table digest must be unchanged; distinct = (table, name) pairs")
 }
